@@ -453,7 +453,7 @@ Definition astep (g : G) (e : event) : option G :=
                end
   | CReg r vis => if gfresh r g && forallb (held g) vis then Some {| act := act g; pend := pend g ++ [(r, vis)] |} else None
   | CInject r p => if held g p then Some g else None
-  | CDone r => if nmem r (map fst (pend g)) then Some {| act := act g; pend := premove r (pend g) |} else None
+  | CDone r => Some {| act := act g; pend := premove r (pend g) |}     (* a no-op for an id that is not pending *)
   | PFail _ | CFail _ => None
   end.
 
@@ -514,6 +514,14 @@ Lemma keys_premove r l : map fst (premove r l) = filter (fun k => negb (N.eqb k 
 Proof.
   induction l as [|[k v] l IH]; simpl; [reflexivity|].
   destruct (N.eqb k r); simpl; [exact IH | rewrite IH; reflexivity].
+Qed.
+
+Lemma NoDup_app_disjoint_N (a b : list N) x : NoDup (a ++ b) -> In x a -> In x b -> False.
+Proof.
+  induction a as [|y a IH]; simpl; intros H Ha Hb; [destruct Ha|].
+  inversion H as [|? ? Hy Hn]; subst. destruct Ha as [->|Ha].
+  - apply Hy. apply in_app_iff. auto.
+  - apply (IH Hn Ha Hb).
 Qed.
 
 Lemma abs_empty : Abs {| act := []; pend := [] |} empty_state.
@@ -651,12 +659,10 @@ Proof.
     destruct (held g p) eqn:Eh; [|discriminate]. inversion Hst; subst g'.
     exists s. split; [|auto]. simpl. pose proof (held_live _ _ p HA Eh) as H. apply nmem_In in H. rewrite H. reflexivity.
   - (* CDone *)
-    destruct (nmem r (map fst (pend g))) eqn:Er; [|discriminate]. inversion Hst; subst g'; clear Hst.
-    apply nmem_In in Er.
-    assert (Hract : ~ In r (act g)).
-    { intro H. unfold Gwf in HW. apply NoDup_remove_2 with (a := r) (l := []) in HW || idtac.
-      clear -HW H Er. induction (act g) as [|x a IH]; [destruct H|]. simpl in HW. inversion HW as [|? ? Hx Hn]; subst.
-      destruct H as [->|H]; [apply Hx; apply in_app_iff; auto | apply IH; assumption]. }
+    inversion Hst; subst g'; clear Hst.
+    assert (Hract : In r (allr s) -> ~ In r (act g)).
+    { intros Hv H. apply (abs_all_pend _ _ HA) in Hv. unfold Gwf in HW.
+      apply (NoDup_app_disjoint_N _ _ r HW H Hv). }
     destruct (unregister_views r s) as [s' [U1 [U2 [U3 [U4 [U5 [U6 U7]]]]]]].
     { exact (abs_keys _ _ HA). } { exact (abs_nonempty _ _ HA). }
     { intros p h H. apply (abs_cache _ _ HA). exists h. exact H. }
@@ -670,7 +676,7 @@ Proof.
            assert (Hv : In r (allr s)). { apply (abs_pend_all _ _ HA r vis H1). intro E. subst vis. destruct H2. }
            exact (Hn Hv eq_refl).
         -- intros [[-> H]|[vis [H1 H2]]].
-           ++ split; [auto|]. intros _ E. subst. contradiction.
+           ++ split; [auto|]. intros Hv E. subst. exact (Hract Hv H).
            ++ apply In_premove in H1 as [H1 H3]. split; [right; exists vis; auto|]. intros _. exact H3.
       * intros x Hx. apply U3 in Hx as [Hx Hxr]. apply (abs_all_pend _ _ HA) in Hx.
         apply in_map_iff in Hx as [[x' v] [E Hin]]. simpl in E. subst x'. apply in_map_iff. exists (x, v).
@@ -723,7 +729,7 @@ Section TreeInd.
   Variable P : tree -> Prop.
   Variable Q : list tree -> Prop.
   Hypothesis HProv : forall p body, Q body -> P (Prov p body).
-  Hypothesis HComp : forall root r vis inj body, Q body -> P (Comp root r vis inj body).
+  Hypothesis HComp : forall root r vis inj inj2 body, Q body -> P (Comp root r vis inj inj2 body).
   Hypothesis Hnil : Q [].
   Hypothesis Hcons : forall t r, P t -> Q r -> Q (t :: r).
 
@@ -731,8 +737,8 @@ Section TreeInd.
     match t with
     | Prov p body =>
         HProv p body ((fix L (ts : list tree) : Q ts := match ts with [] => Hnil | t :: r => Hcons t r (tree_ind2 t) (L r) end) body)
-    | Comp root r vis inj body =>
-        HComp root r vis inj body ((fix L (ts : list tree) : Q ts := match ts with [] => Hnil | t :: r => Hcons t r (tree_ind2 t) (L r) end) body)
+    | Comp root r vis inj inj2 body =>
+        HComp root r vis inj inj2 body ((fix L (ts : list tree) : Q ts := match ts with [] => Hnil | t :: r => Hcons t r (tree_ind2 t) (L r) end) body)
     end.
 
   Fixpoint tree_list_ind2 (ts : list tree) : Q ts :=
@@ -742,31 +748,40 @@ End TreeInd.
 (* unfolding equations (the nested fixes of Model.v are the list functions) *)
 Lemma imm_Prov p body : imm (Prov p body) = PEnter p :: imml body ++ [PExit p].
 Proof. reflexivity. Qed.
-Lemma imm_root r vis inj body : imm (Comp true r vis inj body) = CReg r vis :: map (CInject r) inj ++ imml body ++ dfrl body ++ [CDone r].
+Lemma imm_root r vis inj inj2 body :
+  imm (Comp true r vis inj inj2 body) =
+  map (CInject r) inj ++ CReg r vis :: map (CInject r) inj2 ++ imml body ++ dfrl body ++ [CDone r]
+  ++ map CDone (r :: regs_imml body ++ regs_dfrl body).
 Proof. reflexivity. Qed.
-Lemma imm_nested r vis inj body : imm (Comp false r vis inj body) = CReg r vis :: map (CInject r) inj.
+Lemma imm_nested r vis inj inj2 body : imm (Comp false r vis inj inj2 body) = map (CInject r) inj ++ [CReg r vis].
 Proof. reflexivity. Qed.
 Lemma dfr_Prov p body : dfr (Prov p body) = dfrl body.
 Proof. reflexivity. Qed.
-Lemma dfr_root r vis inj body : dfr (Comp true r vis inj body) = [].
+Lemma dfr_root r vis inj inj2 body : dfr (Comp true r vis inj inj2 body) = [].
 Proof. reflexivity. Qed.
-Lemma dfr_nested r vis inj body : dfr (Comp false r vis inj body) = imml body ++ dfrl body ++ [CDone r].
+Lemma dfr_nested r vis inj inj2 body :
+  dfr (Comp false r vis inj inj2 body) = map (CInject r) inj2 ++ imml body ++ dfrl body ++ [CDone r].
+Proof. reflexivity. Qed.
+Lemma regs_imm_Prov p body : regs_imm (Prov p body) = regs_imml body.
+Proof. reflexivity. Qed.
+Lemma regs_dfr_Prov p body : regs_dfr (Prov p body) = regs_dfrl body.
 Proof. reflexivity. Qed.
 Lemma ids_Prov p body : ids (Prov p body) = p :: idsl body.
 Proof. reflexivity. Qed.
-Lemma ids_Comp root r vis inj body : ids (Comp root r vis inj body) = r :: idsl body.
+Lemma ids_Comp root r vis inj inj2 body : ids (Comp root r vis inj inj2 body) = r :: idsl body.
 Proof. reflexivity. Qed.
 Lemma wf_Prov avail p body : wf avail (Prov p body) = wfl (p :: avail) body.
 Proof. reflexivity. Qed.
-Lemma wf_Comp avail root r vis inj body : wf avail (Comp root r vis inj body) = subset vis avail && subset inj vis && wfl vis body.
+Lemma wf_Comp avail root r vis inj inj2 body :
+  wf avail (Comp root r vis inj inj2 body) = subset vis avail && subset inj vis && subset inj2 vis && wfl vis body.
 Proof. reflexivity. Qed.
 
 (* what a template leaves behind in the queue: the nested components registered while it rendered *)
 Fixpoint pendof (t : tree) : list (N * list N) :=
   match t with
   | Prov p body => (fix L (ts : list tree) := match ts with [] => [] | t :: r => pendof t ++ L r end) body
-  | Comp true _ _ _ _ => []
-  | Comp false r vis _ _ => [(r, vis)]
+  | Comp true _ _ _ _ _ => []
+  | Comp false r vis _ _ _ => [(r, vis)]
   end.
 Fixpoint pendofl (ts : list tree) : list (N * list N) := match ts with [] => [] | t :: r => pendof t ++ pendofl r end.
 Lemma pendof_Prov p body : pendof (Prov p body) = pendofl body.
@@ -776,15 +791,15 @@ Proof. reflexivity. Qed.
 Fixpoint shell (t : tree) : list N :=
   match t with
   | Prov p body => p :: (fix L (ts : list tree) := match ts with [] => [] | t :: r => shell t ++ L r end) body
-  | Comp true r _ _ body => r :: idsl body
-  | Comp false r _ _ _ => [r]
+  | Comp true r _ _ _ body => r :: idsl body
+  | Comp false r _ _ _ _ => [r]
   end.
 Fixpoint shelll (ts : list tree) : list N := match ts with [] => [] | t :: r => shell t ++ shelll r end.
 Fixpoint inner (t : tree) : list N :=
   match t with
   | Prov p body => (fix L (ts : list tree) := match ts with [] => [] | t :: r => inner t ++ L r end) body
-  | Comp true _ _ _ _ => []
-  | Comp false _ _ _ body => idsl body
+  | Comp true _ _ _ _ _ => []
+  | Comp false _ _ _ _ body => idsl body
   end.
 Fixpoint innerl (ts : list tree) : list N := match ts with [] => [] | t :: r => inner t ++ innerl r end.
 Lemma shell_Prov p body : shell (Prov p body) = p :: shelll body.
@@ -797,7 +812,7 @@ Proof.
   apply (tree_ind2 (fun t => Permutation (ids t) (shell t ++ inner t))
                    (fun ts => Permutation (idsl ts) (shelll ts ++ innerl ts))).
   - intros p body IH. rewrite ids_Prov, shell_Prov, inner_Prov. simpl. constructor. exact IH.
-  - intros root r vis inj body IH. rewrite ids_Comp. destruct root; simpl.
+  - intros root r vis inj inj2 body IH. rewrite ids_Comp. destruct root; simpl.
     + rewrite app_nil_r. apply Permutation_refl.
     + apply Permutation_refl.
   - apply Permutation_refl.
@@ -962,12 +977,12 @@ Proof.
       * right. left. reflexivity.
       * left. exact Ha.
       * right. right. exact Hs.
-  - intros root r vis inj body _. destruct root.
+  - intros root r vis inj inj2 body _. destruct root.
     + split; [intros x [] | intros avail x _ []].
     + split.
       * intros x H. simpl in H. destruct H as [<-|[]]. simpl. auto.
       * intros avail x Hw H. simpl in H. rewrite app_nil_r in H. left. rewrite wf_Comp in Hw.
-        apply andb_true_iff in Hw as [Hw _]. apply andb_true_iff in Hw as [Hw _].
+        apply andb_true_iff in Hw as [Hw _]. apply andb_true_iff in Hw as [Hw _]. apply andb_true_iff in Hw as [Hw _].
         apply (proj1 (subset_spec vis avail) Hw). exact H.
   - split; [intros x [] | intros avail x _ []].
   - intros t r [IHt1 IHt2] [IHr1 IHr2]. simpl. split.
@@ -1054,58 +1069,97 @@ intros [HI HD]. split.
   apply (HD g (p :: avail)); assumption.
 Qed.
 
-Lemma case_Comp root r vis inj body : P_imml body /\ P_dfrl body -> P_imm (Comp root r vis inj body) /\ P_dfr (Comp root r vis inj body).
+(* the ids a template enters into the root's callback table are ids of the template *)
+Lemma regs_in_ids : forall t, (forall x, In x (regs_imm t) -> In x (ids t)) /\ (forall x, In x (regs_dfr t) -> In x (ids t)).
 Proof.
-intros [HI HD].
-assert (Hreg : forall g avail, wf avail (Comp root r vis inj body) = true -> fresh_for g (r :: idsl body) ->
-          (forall p, In p avail -> held g p = true) -> forall rest,
-          arun g (CReg r vis :: map (CInject r) inj ++ rest) = arun {| act := act g; pend := pend g ++ [(r, vis)] |} rest).
-{ intros g avail Hw Hfr Hheld rest. rewrite wf_Comp in Hw.
-  apply andb_true_iff in Hw as [Hw _]. apply andb_true_iff in Hw as [Hw1 Hw2].
-  cbn [arun astep]. rewrite (gfresh_of_notin r g) by (apply Hfr; left; reflexivity).
-  assert (Hv : forallb (held g) vis = true).
-  { apply forallb_forall. intros q Hq. apply Hheld. apply (proj1 (subset_spec _ _) Hw1). exact Hq. }
-  rewrite Hv. cbn [andb]. apply arun_injects. intros q Hq.
-  apply (held_by_entry _ r vis); [simpl; apply in_app_iff; simpl; auto|].
-  apply (proj1 (subset_spec _ _) Hw2). exact Hq. }
-split.
-+ intros g avail Hw Hnd Hfr Hheld. rewrite ids_Comp in *. inversion Hnd as [|? ? Hrn Hnd']; subst.
-  pose proof Hw as Hw0. rewrite wf_Comp in Hw. apply andb_true_iff in Hw as [Hw Hwb]. apply andb_true_iff in Hw as [Hw1 Hw2].
-  assert (Hvis_g : forall q, In q vis -> In q (gids g)).
-  { intros q Hq. apply held_gids, Hheld. apply (proj1 (subset_spec _ _) Hw1). exact Hq. }
-  destruct root.
-  * (* root component: registers, renders its template and its whole queue, unregisters *)
-    rewrite imm_root, (Hreg g avail Hw0 Hfr Hheld).
-    rewrite app_assoc, arun_app.
-    rewrite (run_body body HI HD {| act := act g; pend := pend g ++ [(r, vis)] |} vis Hwb Hnd').
-    -- cbn [arun astep act pend].
-       assert (Hm : nmem r (map fst (pend g ++ [(r, vis)])) = true).
-       { apply nmem_In. rewrite map_app, in_app_iff. simpl. auto. }
-       rewrite Hm. rewrite premove_pdrop, pdrop_cancel.
-       ++ simpl. rewrite app_nil_r. reflexivity.
-       ++ intros e [<-|[]]. simpl. auto.
-       ++ intros e He [E|[]]. apply (Hfr r (or_introl eq_refl)). unfold gids. rewrite !in_app_iff.
-          right. left. rewrite E. apply in_map. exact He.
-    -- intros x Hx Hg. destruct g as [a l]. simpl in Hg. apply gids_pend_app in Hg as [Hg|[Hg|Hg]].
-       ++ apply (Hfr x (or_intror Hx) Hg).
-       ++ simpl in Hg. destruct Hg as [<-|[]]. contradiction.
-       ++ simpl in Hg. rewrite app_nil_r in Hg. apply (Hfr x (or_intror Hx)). apply Hvis_g. exact Hg.
-    -- intros q Hq. apply (held_by_entry _ r vis); [simpl; apply in_app_iff; simpl; auto | exact Hq].
-  * (* nested component: registers and injects only *)
-    rewrite imm_nested. rewrite <- (app_nil_r (map (CInject r) inj)), (Hreg g avail Hw0 Hfr Hheld). reflexivity.
-+ intros g avail Hw Hnd Hfr Hpend. destruct root.
-  * rewrite dfr_root. simpl. rewrite pdrop_nil, G_eta. reflexivity.
-  * rewrite dfr_nested. rewrite ids_Comp in Hnd. inversion Hnd as [|? ? Hrn Hnd']; subst.
-    rewrite wf_Comp in Hw. apply andb_true_iff in Hw as [Hw Hwb].
-    assert (Hin : In (r, vis) (pend g)) by (apply Hpend; simpl; auto).
-    rewrite app_assoc, arun_app.
-    rewrite (run_body body HI HD g vis Hwb Hnd').
-    -- cbn [arun astep].
-       assert (Hm : nmem r (map fst (pend g)) = true).
-       { apply nmem_In. apply in_map_iff. exists (r, vis). auto. }
-       rewrite Hm, premove_pdrop. reflexivity.
-    -- exact Hfr.
-    -- intros q Hq. apply (held_by_entry g r vis); assumption.
+  apply (tree_ind2 (fun t => (forall x, In x (regs_imm t) -> In x (ids t)) /\ (forall x, In x (regs_dfr t) -> In x (ids t)))
+                   (fun ts => (forall x, In x (regs_imml ts) -> In x (idsl ts)) /\ (forall x, In x (regs_dfrl ts) -> In x (idsl ts)))).
+  - intros p body [H1 H2]. rewrite regs_imm_Prov, regs_dfr_Prov, ids_Prov. split; intros x H; right; auto.
+  - intros root r vis inj inj2 body [H1 H2]. rewrite ids_Comp. destruct root; simpl; split; intros x H; try contradiction.
+    + destruct H as [<-|[]]. auto.
+    + right. apply in_app_iff in H as [H|H]; auto.
+  - split; intros x [].
+  - intros t r [Ht1 Ht2] [Hr1 Hr2]. simpl. split; intros x H; apply in_app_iff in H; apply in_app_iff; destruct H; auto.
+Qed.
+
+Lemma premove_absent r l : ~ In r (map fst l) -> premove r l = l.
+Proof.
+  unfold premove. induction l as [|e l IH]; simpl; intro H; [reflexivity|].
+  destruct (N.eqb (fst e) r) eqn:E; simpl.
+  - apply N.eqb_eq in E. exfalso. apply H. auto.
+  - rewrite IH; [reflexivity|]. intro Hi. apply H. auto.
+Qed.
+
+(* the root's final sweep over the ids of its render tree finds nothing left to unregister *)
+Lemma arun_purge xs : forall g, (forall x, In x xs -> ~ In x (map fst (pend g))) -> arun g (map CDone xs) = Some g.
+Proof.
+  induction xs as [|x xs IH]; intros g H; simpl; [reflexivity|].
+  rewrite premove_absent by (apply H; left; reflexivity). rewrite G_eta. apply IH.
+  intros y Hy. apply H. right. exact Hy.
+Qed.
+
+Lemma case_Comp root r vis inj inj2 body :
+  P_imml body /\ P_dfrl body -> P_imm (Comp root r vis inj inj2 body) /\ P_dfr (Comp root r vis inj inj2 body).
+Proof.
+  intros [HI HD].
+  (* get_context_data (inject), then registration: the injected ids are kept alive by what encloses the component *)
+  assert (Hreg : forall g avail, wf avail (Comp root r vis inj inj2 body) = true -> fresh_for g (r :: idsl body) ->
+            (forall p, In p avail -> held g p = true) -> forall rest,
+            arun g (map (CInject r) inj ++ CReg r vis :: rest) = arun {| act := act g; pend := pend g ++ [(r, vis)] |} rest).
+  { intros g avail Hw Hfr Hheld rest. rewrite wf_Comp in Hw.
+    apply andb_true_iff in Hw as [Hw _]. apply andb_true_iff in Hw as [Hw _]. apply andb_true_iff in Hw as [Hw1 Hw2].
+    rewrite arun_injects.
+    - cbn [arun astep]. rewrite (gfresh_of_notin r g) by (apply Hfr; left; reflexivity).
+      assert (Hv : forallb (held g) vis = true).
+      { apply forallb_forall. intros q Hq. apply Hheld. apply (proj1 (subset_spec _ _) Hw1). exact Hq. }
+      rewrite Hv. reflexivity.
+    - intros q Hq. apply Hheld. apply (proj1 (subset_spec _ _) Hw1). apply (proj1 (subset_spec _ _) Hw2). exact Hq. }
+  split.
+  + intros g avail Hw Hnd Hfr Hheld. rewrite ids_Comp in *. inversion Hnd as [|? ? Hrn Hnd']; subst.
+    pose proof Hw as Hw0. rewrite wf_Comp in Hw. apply andb_true_iff in Hw as [Hw Hwb].
+    apply andb_true_iff in Hw as [Hw Hw3]. apply andb_true_iff in Hw as [Hw1 Hw2].
+    assert (Hvis_g : forall q, In q vis -> In q (gids g)).
+    { intros q Hq. apply held_gids, Hheld. apply (proj1 (subset_spec _ _) Hw1). exact Hq. }
+    destruct root.
+    * (* root component: injects, registers, renders its template and its whole queue, unregisters, sweeps *)
+      rewrite imm_root, (Hreg g avail Hw0 Hfr Hheld).
+      rewrite arun_injects.
+      -- rewrite app_assoc, arun_app.
+         rewrite (run_body body HI HD {| act := act g; pend := pend g ++ [(r, vis)] |} vis Hwb Hnd').
+         ++ cbn [app arun astep act pend]. rewrite premove_pdrop, pdrop_cancel.
+            ** rewrite arun_purge; [simpl; rewrite app_nil_r; reflexivity|]. simpl.
+               intros x Hx Hin. apply (Hfr x).
+               --- destruct Hx as [<-|Hx]; [left; reflexivity|]. right.
+                   apply in_app_iff in Hx as [Hx|Hx].
+                   +++ clear -Hx. induction body as [|t ts IH]; [destruct Hx|]. simpl in *. apply in_app_iff in Hx. apply in_app_iff.
+                       destruct Hx as [Hx|Hx]; [left; apply (proj1 (regs_in_ids t)); exact Hx | right; apply IH; exact Hx].
+                   +++ clear -Hx. induction body as [|t ts IH]; [destruct Hx|]. simpl in *. apply in_app_iff in Hx. apply in_app_iff.
+                       destruct Hx as [Hx|Hx]; [left; apply (proj2 (regs_in_ids t)); exact Hx | right; apply IH; exact Hx].
+               --- unfold gids. rewrite !in_app_iff. auto.
+            ** intros e [<-|[]]. simpl. auto.
+            ** intros e He [E|[]]. apply (Hfr r (or_introl eq_refl)). unfold gids. rewrite !in_app_iff.
+               right. left. rewrite E. apply in_map. exact He.
+         ++ intros x Hx Hg. destruct g as [a l]. simpl in Hg. apply gids_pend_app in Hg as [Hg|[Hg|Hg]].
+            ** apply (Hfr x (or_intror Hx) Hg).
+            ** simpl in Hg. destruct Hg as [<-|[]]. contradiction.
+            ** simpl in Hg. rewrite app_nil_r in Hg. apply (Hfr x (or_intror Hx)). apply Hvis_g. exact Hg.
+         ++ intros q Hq. apply (held_by_entry _ r vis); [simpl; apply in_app_iff; simpl; auto | exact Hq].
+      -- intros q Hq. apply (held_by_entry _ r vis); [simpl; apply in_app_iff; simpl; auto|].
+         apply (proj1 (subset_spec _ _) Hw3). exact Hq.
+    * (* nested component: injects and registers only *)
+      rewrite imm_nested, (Hreg g avail Hw0 Hfr Hheld). reflexivity.
+  + intros g avail Hw Hnd Hfr Hpend. destruct root.
+    * rewrite dfr_root. simpl. rewrite pdrop_nil, G_eta. reflexivity.
+    * rewrite dfr_nested. rewrite ids_Comp in Hnd. inversion Hnd as [|? ? Hrn Hnd']; subst.
+      rewrite wf_Comp in Hw. apply andb_true_iff in Hw as [Hw Hwb]. apply andb_true_iff in Hw as [Hw Hw3].
+      assert (Hin : In (r, vis) (pend g)) by (apply Hpend; simpl; auto).
+      rewrite arun_injects.
+      -- rewrite app_assoc, arun_app.
+         rewrite (run_body body HI HD g vis Hwb Hnd').
+         ++ cbn [arun astep]. rewrite premove_pdrop. reflexivity.
+         ++ exact Hfr.
+         ++ intros q Hq. apply (held_by_entry g r vis); assumption.
+      -- intros q Hq. apply (held_by_entry g r vis); [exact Hin|]. apply (proj1 (subset_spec _ _) Hw3). exact Hq.
 Qed.
 
 Lemma case_nil : P_imml [] /\ P_dfrl [].
@@ -1278,14 +1332,14 @@ Proof.
 Qed.
 
 (* ---------- the protocol before fix 9b964de (no self reference) violates liveness ---------- *)
-Definition two_root_siblings : list tree := [Prov 1 [Comp true 2 [1] [1] []; Comp true 3 [1] [1] []]]%N.
+Definition two_root_siblings : list tree := [Prov 1 [Comp true 2 [1] [1] [] []; Comp true 3 [1] [1] [] []]]%N.
 
 Lemma liveness_without_self_reference_refuted_lemma :
   exists page pre r p post s,
     wf_page page = true /\ trace_of page = pre ++ CInject r p :: post /\
     run false empty_state pre = Some s /\ ~ In p (cache s).
 Proof.
-  exists two_root_siblings, [PEnter 1; CReg 2 [1]; CInject 2 1; CDone 2; CReg 3 [1]]%N, 3%N, 1%N, [CDone 3; PExit 1]%N.
+  exists two_root_siblings, [PEnter 1; CInject 2 1; CReg 2 [1]; CDone 2; CDone 2]%N, 3%N, 1%N, [CReg 3 [1]; CDone 3; CDone 3; PExit 1]%N.
   eexists. split; [vm_compute; reflexivity|]. split; [vm_compute; reflexivity|].
   split; [vm_compute; reflexivity|]. simpl. intros [].
 Qed.
